@@ -50,6 +50,7 @@ def gen_cases(tier, seed):
                        "store": [None, None, "int64", "int32", "uint8", None][int(rng.integers(0, 6))], "good_guess": bool(rng.integers(0, 3) == 0),
                        "cseed": int(seed) * 67867967 + next(cs)}
     yield from _gen_overfit(tier, seed, cs)
+    yield from _gen_single_support(tier, seed, cs)
 
 
 def _gen_overfit(tier, seed, cs):
@@ -64,6 +65,18 @@ def _gen_overfit(tier, seed, cs):
                    "empty_slice": False, "zero_row": False, "maxinneriters": int(rng.choice([3, 10, 20])), "stoptol": 1e-8, "precompinds": bool(rng.integers(0, 2)),
                    "inexact": bool(rng.integers(0, 2)), "lbfgsMem": 3, "kappa": 0.01, "printitn": 0, "stoptime": None, "store": None, "good_guess": False,
                    "cseed": int(seed) * 67867967 + 100000 + next(cs)}
+
+
+def _gen_single_support(tier, seed, cs):
+    # one very large count; a guess in which every positive cell of a row is carried by a single component (exact zeros elsewhere) whose
+    # profile in another mode is badly wrong; the smallest legal budgets (one outer, one or two inner iterations) -- a step that switches
+    # that component off for the cell must never be accepted
+    rng = gen.rng_for(seed + 5, ID, tier)
+    for i in range(24 if tier == "quick" else 200):
+        yield {"w": "apr", "alg": ["pdnr", "pdnr", "pqnr", "mu"][i % 4], "rep": ["dense", "sparse"][(i // 4) % 2], "shape": [[2, 2], [2, 3], [3, 3], [2, 2, 2]][i % 4], "R": 2,
+               "big": [40.0, 500.0, 2000.0, 20000.0, 1e6][i % 5], "single_support": True, "dseed": int(rng.integers(0, 2 ** 31)), "empty_slice": False, "zero_row": False,
+               "maxinneriters": [1, 1, 2][i % 3], "stoptol": 1e-4, "precompinds": bool(i % 2), "inexact": bool((i // 2) % 2), "lbfgsMem": 3, "kappa": 0.01, "printitn": 0,
+               "stoptime": None, "store": None, "good_guess": False, "only_maxiters": [1, 2], "cseed": int(seed) * 67867967 + 200000 + next(cs)}
 
 
 def _quiet(f, *a, **k):
@@ -98,6 +111,21 @@ def run_case(case, ctx):
     M0 = ttb.ktensor([rng.random((s, R)) + 0.1 for s in shape], np.ones(R))
     if case["zero_row"]:
         M0.factor_matrices[0][0, :] = 0
+    if case.get("single_support"):
+        big = float(case["big"])
+        X = np.round(rng.uniform(0, 8, size=shape))
+        X[(0,) * (N - 1) + (shape[-1] - 1,)] = big
+        X[(shape[0] - 1,) * 1 + (0,) * (N - 1)] = max(X[(shape[0] - 1,) + (0,) * (N - 1)], 1.0)
+        A0 = np.zeros((shape[0], R))
+        A0[np.arange(shape[0]), np.arange(shape[0]) % R] = 1.0            # each row of mode 0 is carried by exactly one component
+        fms = [A0]
+        for n_ in range(1, N):
+            F_ = np.full((shape[n_], R), 0.001)
+            F_[0, :] = 0.99                                                # mass on the first index: wrong for the big count (last index)
+            F_[:, 1:] = rng.uniform(0.2, 1.0, size=(shape[n_], R - 1))
+            fms.append(F_ / F_.sum(axis=0))
+        M0 = ttb.ktensor(fms, np.array([X.sum() if r_ == 0 else max(1.0, X.sum() / 10) for r_ in range(R)]))
+        ctx.feat(single_support=True, big=("1e3-" if big < 1000 else "1e3+"))
     alg, rep = case["alg"], case["rep"]
     store = case.get("store")
     if case.get("good_guess"):
@@ -112,7 +140,10 @@ def run_case(case, ctx):
     ctx.feat(alg=alg, rep=rep, zero_row=case["zero_row"], empty_slice=case["empty_slice"], R=R, N=N, precompinds=case["precompinds"],
              inexact=case["inexact"], lbfgsMem=case["lbfgsMem"], maxinneriters=case["maxinneriters"])
     ll0 = loglik(X, np.maximum(denote(M0), 0))
-    opts = {"algorithm": alg, "stoptol": case["stoptol"], "maxinneriters": case["maxinneriters"], "printitn": case["printitn"], "printinneritn": 0}
+    # the algorithm is selected case-insensitively: every spelling behaves as the lower-case one
+    spell = [alg, alg.upper(), alg.capitalize(), alg][case["cseed"] % 4]
+    ctx.feat(alg_spelling=("lower" if spell == alg else "other"))
+    opts = {"algorithm": spell, "stoptol": case["stoptol"], "maxinneriters": case["maxinneriters"], "printitn": case["printitn"], "printinneritn": 0}
     if case.get("stoptime") is not None:
         opts["stoptime"] = case["stoptime"]
     ctx.feat(stoptime=("default" if case.get("stoptime") is None else "exhausted" if case["stoptime"] <= 0 else "generous"))
@@ -122,7 +153,7 @@ def run_case(case, ctx):
         opts.update(lbfgsMem=case["lbfgsMem"])
     if alg == "mu":
         opts.update(kappa=case["kappa"])
-    for mi in (1, 2, 3):
+    for mi in case.get("only_maxiters", (1, 2, 3)):
         guess = M0.copy()
         gdig = state_digest(guess)
         r = ctx.call("cp_apr", _quiet, ttb.cp_apr, D, R, init=guess, maxiters=mi, **opts)
